@@ -254,6 +254,7 @@ def tie_leaf(ctx: Ctx, drv: Driver, quick: bool) -> None:
     rx_subtie(ctx, drv, 60 if quick else 700)
     inline_x_tie(ctx, drv, 1500 if quick else 40000)
     inline_l_tie(ctx, drv, 2000 if quick else 50000)
+    inline_l_tie(ctx, drv, 2500 if quick else 60000, image=True)
 
 
 LINK_ATOMS = ["a", "b", " ", "\n", "*", "**", "_", "`", "[", "]", "](", ")", "(u)", "(", "](u)", "](u) ", "<http://p.q>", "<a@b.c>", "[a](b)", "[a](<b c>)", "[a](b \"t\")", "[a](b 't' )",
@@ -263,8 +264,15 @@ LINK_ATOMS = ["a", "b", " ", "\n", "*", "**", "_", "`", "[", "]", "](", ")", "(u
               "&amp;", "&#35;", "\\", "~~", "[a](b)c)", "[a]((((u))))", "[a](" + "(" * 33 + "u" + ")" * 33 + ")", "[a](u\x7f)", "[a](\tu\t)", "[~~a~~~](u)",
               "[a](data:image/png;base64,x)", "[a](DATA:text/html,x)", "[a](u '&quot;t&#x22;')"]
 
+IMAGE_ATOMS = ["![a](b)", "![", "!", "![]", "![](u)", "![a]", "![a][r]", "![r][]", "![r]", "![R]", "![a](<b c> \"t\")", "![a]( b 't' )", "![a](b (t))",
+               "![*a*](u)", "![a *b](u)*", "![![a](u)](v)", "![[a](u)](v)", "[![a](u)](v)", "![a](javascript:x)", "![a](JAVASCRIPT:x \"t\")", "![a](\"t\")",
+               "![a]( \"t\")", "![a](u\n\"t\")", "![a](u \"t\" x)", "![a](u", "![a] (u)", "![a]\n[r]", "![a][", "![a][]", "![foo  bar]", "![a][Foo\tBar]",
+               "![a\\*b &amp; c](x)", "![`]`](u)", "![<http://x.y>](u)", "![<b>](u)", "![a\nb](u)", "![a](data:image/png;base64,x)", "![a](vbscript:x)",
+               "![a](<javascript:x>)", "![a](&#106;avascript:x)", "![~~a~~~](u)", "![a]((u))", "![a](u 't)", "!\\[a](u)", "\\![a](u)", "![a\\](u)", "![é]",
+               "![a](" + "(" * 33 + "u" + ")" * 33 + ")", "![ ](u)", "![\n](u)", "![a][r](u)", "![a](u)[r]", "!![a](u)", "![a]!(u)"]
 
-def inline_l_tie(ctx: Ctx, drv: Driver, n: int) -> None:
+
+def inline_l_tie(ctx: Ctx, drv: Driver, n: int, image: bool = False) -> None:
     """the inline sub-parser with the `link` rule (driver `inlinel`): skipToken with its position memo, label / destination / title
     parsing, references from env, delimiter scopes, the second chain over all scopes"""
     import importlib
@@ -278,7 +286,9 @@ def inline_l_tie(ctx: Ctx, drv: Driver, n: int) -> None:
     from markdown_it import _punycode
 
     linkmod = importlib.import_module("markdown_it.rules_inline.link")
+    imgmod = importlib.import_module("markdown_it.rules_inline.image")
     rng = ctx.rng
+    req = "inlinei" if image else "inlinel"
 
     def reformat(url: str) -> str:
         parsed = mdurl.parse(url, slashes_denote_host=True)
@@ -297,6 +307,8 @@ def inline_l_tie(ctx: Ctx, drv: Driver, n: int) -> None:
     rng.shuffle(cross)
     cross = cross[: max(200, n // 8)]
     subsets = ["tl", "tnl", "tnebl", "tnebml", "tnebsml", "tnebsmlahy", "tml", "tsl", "tbl", "tel", "l", "nebml", "tlahy", "tmlay", "tneblahy"]
+    if image:
+        subsets = ["ti", "tli", "tnebsmliahy", "tnebmli", "tmi", "tei", "tbi", "i", "li", "nebmli", "tiahy", "tsli", "tnebsmliahy", "tli", "tmli"]
     name_re = re.compile(r"&([^&;\s]{1,40});")
     ref_sets = [{}, {"r": ("/ref", "")}, {"r": ("/ref", "RT"), "foo bar": ("/fb", "t\"q"), "é": ("/e", "")}, {"R": ("javascript:x", "")}]
     lines, exp, meta = [], [], []
@@ -305,9 +317,18 @@ def inline_l_tie(ctx: Ctx, drv: Driver, n: int) -> None:
         for it in range(n):
             rs = rng.choice(subsets)
             s = "".join(rng.choice(LINK_ATOMS) for _ in range(rng.randint(1, 8)))
+            if image:
+                s = "".join(rng.choice(IMAGE_ATOMS if rng.random() < 0.6 else LINK_ATOMS) for _ in range(rng.randint(1, 8)))
+                if rng.random() < 0.15:     # descriptions nested in descriptions, in and around links
+                    for _ in range(rng.randint(1, 6)):
+                        s = rng.choice(["![%s](u)", "![%s][r]", "[%s](v)", "![a %s b](<w> 't')", "*%s*", "![%s]", "![%s](javascript:x)"]) % s
             if it < len(cross):
                 s = cross[it]            # delimiter pairs against link boundaries, constructs with their own delimiter scope inside
                 rs = rng.choice(["tnebsmlahy", "tnebmlahy", "tmla"])
+                if image:
+                    rs = rng.choice(["tnebsmliahy", "tnebmliahy", "tmlia"])
+                    if rng.random() < 0.5:
+                        s = s.replace("[", "![", 1) if rng.random() < 0.5 else "![" + s + "](u)"
             if "\r" in s or "\x00" in s:
                 continue
             mn = rng.choice([20, 20, 1, 0, 2, 3, 5])
@@ -317,7 +338,7 @@ def inline_l_tie(ctx: Ctx, drv: Driver, n: int) -> None:
             store = rng.random() < 0.3
             md = MarkdownIt("zero", {"maxNesting": mn, "html": html_on, "store_labels": store})
             names = {"n": "newline", "e": "escape", "b": "backticks", "m": "emphasis", "s": "strikethrough", "a": "autolink", "h": "html_inline",
-                     "y": "entity", "l": "link"}
+                     "y": "entity", "l": "link", "i": "image"}
             en = [names[c] for c in rs if c in names]
             if en:
                 md.enable(en)
@@ -350,6 +371,7 @@ def inline_l_tie(ctx: Ctx, drv: Driver, n: int) -> None:
             md.normalizeLink = nl
             md.normalizeLinkText = nt
             linkmod.normalizeReference = nr
+            imgmod.normalizeReference = nr
             try:
                 toks = md.parseInline(s, env)
                 e = "ok " + " ".join(enc_toks(toks[0].children or []))
@@ -358,20 +380,29 @@ def inline_l_tie(ctx: Ctx, drv: Driver, n: int) -> None:
             ents = {m.group(1): lib_entities[m.group(1)] for m in name_re.finditer(s) if m.group(1) in lib_entities}
             rh = {k: v["href"] for k, v in env.get("references", {}).items()}
             rt = {k: v["title"] for k, v in env.get("references", {}).items() if v["title"]}
-            lines.append(f"inlinel {mn} {rs or '-'} {1 if fj else 0} {1 if tj else 0} {1 if html_on else 0} {pairs(ents)} "
+            lines.append(f"{req} {mn} {rs or '-'} {1 if fj else 0} {1 if tj else 0} {1 if html_on else 0} {pairs(ents)} "
                          f"{pairs(seen_norm)} {pairs(seen_text)} {1 if has_refs else 0} {1 if store else 0} {pairs(rh)} {pairs(rt)} {pairs(seen_ref)} {enc(s)}")
             exp.append(e)
             meta.append((s, rs, mn, fj, tj, html_on, has_refs, store, sorted(refs)))
     finally:
         linkmod.normalizeReference = orig_norm
+        imgmod.normalizeReference = orig_norm
     got = drv.batch(lines)
-    nlinks = 0
+    nlinks = nimgs = nnest = 0
     for e, g, m in zip(exp, got, meta):
         ctx.corr_compared += 1
         if enc("link_open") + "|" in e:
             nlinks += 1
+        if enc("image") + "|" in e:
+            nimgs += 1
+            if e.count(enc("image") + "|") > 1:
+                nnest += 1
         if e.strip() != g.strip():
-            ctx.mismatch("inline engine with the link rule: implementation and model differ",
+            ctx.mismatch("inline engine with the link and image rules: implementation and model differ" if image else
+                         "inline engine with the link rule: implementation and model differ",
                          {"input": m[0], "rules": m[1], "maxNesting": m[2], "fragments_join": m[3], "text_join": m[4], "html": m[5], "has_refs": m[6],
                           "store_labels": m[7], "refs": m[8], "impl": e[:600], "model": g[:600]})
-    ctx.cov["inline_l_tie"] = {"documents": len(lines), "with_links": nlinks}
+    if image:
+        ctx.cov["inline_i_tie"] = {"documents": len(lines), "with_links": nlinks, "with_images": nimgs, "with_several_images": nnest}
+    else:
+        ctx.cov["inline_l_tie"] = {"documents": len(lines), "with_links": nlinks}
